@@ -438,6 +438,6 @@ S_CT = st.fixed_dictionaries({
 
 def tests(tier):
     return [
-        Test("safe_fast", S_DIFF, run_diff, {"quick": 6000, "thorough": 120000}, CFGA),
-        Test("memcheck", S_CT, run_ct, {"quick": 640, "thorough": 12000}, ("rel",)),
+        Test("safe_fast", S_DIFF, run_diff, {"quick": 40000, "thorough": 300000}, CFGA),
+        Test("memcheck", S_CT, run_ct, {"quick": 4800, "thorough": 32000}, ("rel",)),
     ]
